@@ -50,7 +50,7 @@ def gen(args) -> list:
         cal = rnd.choice(cals)
         if c < 0.55:
             s1 = rdays(cal)
-            e1 = min(s1 + rnd.choice([0, 0, 1, 2, 5, 30, rnd.randint(0, 300)]), cal._max_days)
+            e1 = min(s1 + rnd.choice([0, 0, 1, 2, 5, 30, 299, 300, 301, 365, 400, rnd.randint(0, 300), rnd.randint(300, 800)]), cal._max_days)
             s2 = rdays(cal, near=rnd.choice([s1, e1]))
             e2 = min(s2 + rnd.choice([0, 0, 1, 2, 5, 30, rnd.randint(0, 300)]), cal._max_days)
             if rnd.random() < 0.1:
@@ -66,7 +66,11 @@ def gen(args) -> list:
                 if cal._min_days <= d <= cal._max_days:
                     ld = ctor(days_since_epoch=d, calendar=cal)
                     mem.append([d, (ld in a) and a.contains(ld)])
-            days = [x._days_since_epoch for x in a] if e1 - s1 <= 400 else None
+            import itertools
+
+            # (bounded: an iteration that does not stop at the end must not hang the driver; calendars are compared too)
+            its = list(itertools.islice(iter(a), e1 - s1 + 3)) if e1 - s1 <= 900 else None
+            days = None if its is None else [x._days_since_epoch if x.calendar == cal else -10**9 for x in its]
             if days is None:
                 it = [s1, e1, e1 - s1 + 1, True]
             else:
